@@ -12,6 +12,7 @@ import (
 	"strconv"
 	"strings"
 	"testing"
+	"time"
 
 	"github.com/IrineSistiana/mosdns/v5/coremain"
 	"github.com/IrineSistiana/mosdns/v5/pkg/matcher/domain"
@@ -515,7 +516,15 @@ func (f execFunc) Exec(ctx context.Context, q *query_context.Context) error { re
 // ---------------------------------------------------------------- property
 
 func runCase(c Case, ctx *hx.Ctx) *hx.Failure {
-	lk, err := build(c)
+	var lk lookup
+	var err error
+	if done, hang, detail := hx.CallBounded(30*time.Second, func() { lk, err = build(c) }); !done {
+		if hang {
+			return hx.Failf("C12/never-returns", "engine %s: loading the rule set has not finished after 30 s (rules=%v); stuck:\n%s", c.Engine, ruleTexts(c.Rules), detail)
+		}
+		ctx.Class("inconclusive:load-slow")
+		return nil
+	}
 	if err != nil {
 		return hx.Failf("C12/load-rejects-valid-rule", "engine %s refused a valid rule set: %v", c.Engine, err)
 	}
@@ -524,7 +533,15 @@ func runCase(c Case, ctx *hx.Ctx) *hx.Failure {
 	matches := 0
 	for _, name := range c.Names {
 		ref := reference(c.Rules, name)
-		got, v := lk(name)
+		var got bool
+		var v int
+		if done, hang, detail := hx.CallBounded(30*time.Second, func() { got, v = lk(name) }); !done {
+			if hang {
+				return hx.Failf("C12/never-returns", "engine=%s name=%q: Match has not returned after 30 s (rules=%v); stuck:\n%s", c.Engine, name, ruleTexts(c.Rules), detail)
+			}
+			ctx.Class("inconclusive:match-slow")
+			return nil
+		}
 		if got != ref.match {
 			sig := "C12/false-negative"
 			if got {
